@@ -65,3 +65,33 @@ func (core *JApiCore) VerifPasteOnly() *jerr.JApiError {
 	}
 	return core.processPaste()
 }
+
+// VerifRawPathVariable describes one collected Path directive: the position of its keyword, the
+// (prefix path, parameter name) pairs of its path and the property keys of its (expanded) body.
+type VerifRawPathVariable struct {
+	File   string
+	Begin  uint
+	Params [][2]string
+	Props  []string
+}
+
+// VerifRawPathVariableDetails returns the collected Path directives in order.
+func (core *JApiCore) VerifRawPathVariableDetails() []VerifRawPathVariable {
+	r := make([]VerifRawPathVariable, 0, len(core.rawPathVariables))
+	for _, v := range core.rawPathVariables {
+		file, begin, _ := v.pathDirective.VerifKeywordCoords()
+		x := VerifRawPathVariable{File: file, Begin: begin}
+		for _, p := range v.parameters {
+			x.Params = append(x.Params, [2]string{string(p.path), p.parameter})
+		}
+		if v.schema.ContentJSight != nil {
+			for _, c := range v.schema.ContentJSight.Children {
+				if c != nil && c.Key != nil {
+					x.Props = append(x.Props, *c.Key)
+				}
+			}
+		}
+		r = append(r, x)
+	}
+	return r
+}
